@@ -89,19 +89,23 @@ func init() {
 		func(p *Prog, r *Report) { ruleWalkArms(p, r, []string{"mxj.marshalMapToXmlIndent"}) })
 
 	register("C03",
-		"Structural clauses of 'encoding a JSON-shaped value as XML preserves all data': WALK.arms (every list member encoded in order under its key, every collected child encoded, AnyXml encodes every member of a list value), TABLE.partition, ESC.flow, ERR.path on the Map encoders and AnyXml/AnyXmlIndent (an element encoder error cannot be overwritten or dropped), TAGS.protocol (typestate of the element encoder: every path feasible for a JSON-shaped value writes a complete, properly nested element), TAGS.content (no scalar value or text entry is dropped: a write computed from it precedes the end of the element on every path). Not decided: decode(encode(m)) ≅ m; well-formedness for arbitrary key strings."+levelNote,
+		"Structural clauses of 'encoding a JSON-shaped value as XML preserves all data': WALK.arms (every list member encoded in order under its key, every collected child encoded, AnyXml encodes every member of a list value), TABLE.partition, ESC.flow, TABLE.escape (all five special characters are escaped, '&' first, no early return leaves one unescaped), ERR.path on the Map encoders and AnyXml/AnyXmlIndent (an element encoder error cannot be overwritten or dropped), TAGS.protocol (typestate of the element encoder: every path feasible for a JSON-shaped value writes a complete, properly nested element), TAGS.content (no scalar value or text entry is dropped: a write computed from it precedes the end of the element on every path), OWN.private (the document returned is not reachable from package state — a pooled or cached buffer — so no later call can rewrite it). Not decided: decode(encode(m)) ≅ m; well-formedness for arbitrary key strings."+levelNote,
 		nil,
 		ruleTagProtocol, func(p *Prog, r *Report) { ruleTagContent(p, r, "map") },
+		func(p *Prog, r *Report) {
+			ruleOwnPrivate(p, r, []string{"mxj.Map.Xml", "mxj.Map.XmlIndent", "mxj.AnyXml", "mxj.AnyXmlIndent"})
+		},
 		func(p *Prog, r *Report) { ruleWalkArms(p, r, []string{"mxj.marshalMapToXmlIndent"}) },
-		ruleAnyXmlList, ruleTablePartition, ruleEsc,
+		ruleAnyXmlList, ruleTablePartition, ruleEsc, ruleTableEscape,
 		func(p *Prog, r *Report) {
 			ruleErr(p, r, []string{"mxj.Map.Xml", "mxj.Map.XmlIndent", "mxj.AnyXml", "mxj.AnyXmlIndent"}, "Map encoders and AnyXml")
 		})
 
 	register("C04",
-		"Structural clauses of the MapSeq round trip: PAIR.seq (every token kind gets a fresh sequence number that is advanced in the same block; attributes take their index; the child collection skips exactly the attribute and sequence keys), ORDER on the sequence encoder (attributes and children are sorted by sequence number before any write), DECODE.sibling and WALK.arms for the sequence codec, SHAPE.seq (decoder output has the shape the encoder asserts), PANIC.* on both halves, WRAP.compose for BeautifyXml, TAGS.seqprotocol (token-level typestate of the sequence encoder: < name, blank name = quoted value, then either > content </ name > or />, comment / directive / processing-instruction forms; no successful return leaves an open element), TAGS.content (the text entry and the scalar value are written on every path that completes the element, for strings and for the numbers / booleans casting produces). Not decided: token-stream equality."+levelNote,
+		"Structural clauses of the MapSeq round trip: PAIR.seq (every token kind gets a fresh sequence number that is advanced in the same block; attributes take their index; the child collection skips exactly the attribute and sequence keys), ORDER on the sequence encoder (attributes and children are sorted by sequence number before any write), DECODE.sibling and WALK.arms for the sequence codec, SHAPE.seq (decoder output has the shape the encoder asserts), PANIC.* on both halves, WRAP.compose for BeautifyXml, TAGS.seqprotocol (token-level typestate of the sequence encoder: < name, blank name = quoted value, then either > content </ name > or />, comment / directive / processing-instruction forms; no successful return leaves an open element), TAGS.content (the text entry and the scalar value are written on every path that completes the element, for strings and for the numbers / booleans casting produces), OWN.private (the encoded document is not reachable from package state). Not decided: token-stream equality."+levelNote,
 		nil,
 		ruleTagProtocolSeq, func(p *Prog, r *Report) { ruleTagContent(p, r, "seq") },
+		func(p *Prog, r *Report) { ruleOwnPrivate(p, r, []string{"mxj.MapSeq.Xml", "mxj.MapSeq.XmlIndent", "mxj.BeautifyXml"}) },
 		rulePairSeq,
 		func(p *Prog, r *Report) { ruleOrder(p, r, concat(grpSeqEncode, grpBeautify)) },
 		func(p *Prog, r *Report) { ruleDecodeSibling(p, r, []string{"mxj.xmlSeqToMapParser"}) },
@@ -120,8 +124,11 @@ func init() {
 		})
 
 	register("C06",
-		"Structural clauses of 'JSON encode/decode is lossless': TABLE.norewrite (the bytes returned by Json/JsonIndent come from encoding/json without textual substitution; safeEncoding selects the escaping mode), INFL.cover (JsonUseNumber controls Decoder.UseNumber), WRAP.compose (Copy = Json then NewMapJson), WRAP.writer (the Writer forms hand the writer exactly the encoder's bytes), ERR.path on the JSON functions. Not decided: agreement with encoding/json on acceptance; array wrapping."+levelNote,
+		"Structural clauses of 'JSON encode/decode is lossless': TABLE.norewrite (the bytes returned by Json/JsonIndent come from encoding/json without textual substitution; safeEncoding selects the escaping mode), INFL.cover (JsonUseNumber controls Decoder.UseNumber), WRAP.compose (Copy = Json then NewMapJson), WRAP.writer (the Writer forms hand the writer exactly the encoder's bytes), ERR.path on the JSON functions, OWN.private (the bytes / the copy returned are not reachable from package state, so a later encode cannot rewrite them). Not decided: agreement with encoding/json on acceptance; array wrapping."+levelNote,
 		nil,
+		func(p *Prog, r *Report) {
+			ruleOwnPrivate(p, r, []string{"mxj.Map.Json", "mxj.Map.JsonIndent", "mxj.Map.JsonWriterRaw", "mxj.Map.JsonIndentWriterRaw", "mxj.Map.Copy"})
+		},
 		ruleTableNoRewrite,
 		func(p *Prog, r *Report) { ruleInflCoverJson(p, r) },
 		ruleJsonDecoder,
